@@ -23,11 +23,11 @@ RULE = (
     "(non-commuting complex 2x2 singlet, ns+, diagonal or generic 2x2 valence, |gamma_k| <~ 10^k, from a drawn seed) "
     "embedded at gamma[i,0], every gamma[i,j>=1] filled with junk of size 0.1-1000. Oracles: (g,Sigma) block = ordered "
     "product of scipy expm of gamma(a_half)/beta(a_half) da with literature beta's, and = eko singlet.eko_iterate on the "
-    "geometric lists; photon row/column = identity; Sigma_Delta entry = scalar mid-point product of ns+; valence likewise (and = singlet.eko_iterate for generic 2x2); "
-    "non_singlet_qed = product of the QCD exact NS kernels of the steps = one-step QCD exact kernel = exp of the "
+    "geometric lists; photon row/column = identity; Sigma_Delta entry = scalar mid-point product of ns+; valence "
+    "likewise (and = singlet.eko_iterate for generic 2x2); non_singlet_qed = product of the QCD exact NS kernels of the steps = one-step QCD exact kernel = exp of the "
     "quadrature of gamma/beta. E (end to end): fixed-flavour solves on 2-3 point grids, orders (1-3 (quick 1-2), 1-2), "
-    "alpha_em fixed or running, alpha_em in {1e-4,1e-6,1e-8} at 10 iterations and alpha_em=1e-8 at 10,20,40 (thorough: "
-    "...,160) iterations against the QCD solve (iterate-exact, 8 x the largest iteration count) on the 13 parton "
+    "alpha_em fixed or running, alpha_em in {1e-4,1e-6,1e-8} at 8 iterations and alpha_em=1e-8 at 8,16,32 (thorough: "
+    "10,20,...,160) iterations against the QCD solve (iterate-exact, 8 x the largest iteration count) on the 13 parton "
     "channels: the alpha_em differences must be linear in alpha_em and bounded by c1 alpha_em, the distance to QCD must "
     "shrink >= 3x per doubling of the iterations (down to the floor) and be bounded by c2/iterations^2; the photon row "
     "and column must tend to the identity linearly in alpha_em. Non-trivial = order[0] >= 2 and >= 3 coupling steps "
@@ -46,7 +46,7 @@ ASSUMPTIONS = [
     "end to end: quad tolerance tightened to 1e-9 from the harness (tight_quad of C50); noise floor 1e-9 |E| (measured: "
     "the ratio of the two alpha_em differences reproduces the nominal 101.01 to 4 digits, i.e. noise < 1e-11)",
     "end-to-end constants, relative to max|E_QCD|, with dt = ln(mu_hi^2/mu_lo^2): alpha_em term <= c1 alpha_em with c1 = "
-    "dt (measured 0.09-0.13 dt); photon row/column <= 6 dt alpha_em (measured <= 1.0 dt); distance to QCD at N "
+    "dt (measured 0.09-0.17 dt); photon row/column <= 6 dt alpha_em (measured <= 1.0 dt); distance to QCD at N "
     "iterations <= 60 c^3 / N^2 with c = beta0 a_max dt the LO estimate of ln(a_hi/a_lo) (measured 3-8 c^3 / N^2); "
     "shrink factor per doubling >= 3 (measured 3.9-4.0) down to the floor c1 1e-8 + 1e-9 + the reference's own "
     "discretisation error; linearity window: measured ratio within a factor 2 of the nominal 101",
@@ -300,9 +300,6 @@ def _solve_one(card):
     return op
 
 
-LAST = {}
-
-
 def check_e2e(case):
     from vf.props.c50_matching_scale import tight_quad
 
@@ -383,7 +380,6 @@ def check_e2e(case):
     for a, p in zip(aems, ph):
         if not p <= c_ph * a * max(norm, 1.0) + E_NOISE:
             res.fail(f"{ID}/E/photon-not-trivial/{where}", f"photon row/column deviates from the identity by {p:.3e} at alpha_em={a} (> {c_ph * a * max(norm, 1.0):.3e})")
-    LAST.update(d_aem=d_aem, D=D, ph=ph, norm=norm, dt=dt, c1=c1, c2=c2, c_ph=c_ph, floor=floor)
     res.nontrivial = bool(n >= 2)
     return res
 
